@@ -10,6 +10,7 @@ import (
 	clock "lunar/toolkit-core/clock"
 	context_manager "lunar/toolkit-core/context-manager"
 	"lunar/toolkit-core/otel"
+	"lunar/toolkit-core/verifhook"
 	"time"
 
 	lunar_metrics "lunar/engine/metrics"
@@ -176,6 +177,7 @@ func (p *queueProcessor) process() {
 	ctxManager := context_manager.Get()
 	for {
 		<-p.clock.After(p.getNextProcessTime())
+		verifhook.Point("q.loop_tick")
 		if ctxManager.GetContext().Err() != nil {
 			// If the context is done, we start draining the queue and release requests.
 			p.drainQueue()
@@ -188,11 +190,14 @@ func (p *queueProcessor) process() {
 func (p *queueProcessor) drainQueue() {
 	p.inDrainMode = true
 	log.Debug().Msgf("Draining queue for processor %s", p.name)
+	verifhook.Point("q.stopall")
 	p.requestsWatcher.StopAll()
+	verifhook.Point("q.stopall_done")
 }
 
 func (p *queueProcessor) tryProcessQueueItems() {
 	for p.queue.Size() > 0 {
+		verifhook.Point("q.loop_pop")
 		reqID := p.queue.DequeueIfValueRelevant()
 		if reqID == "" {
 			p.logger.Trace().Msg("The next request to be processed does not belong to this Gateway instance")
@@ -211,6 +216,7 @@ func (p *queueProcessor) tryProcessQueueItems() {
 			req.StopProcessing()
 			return
 		}
+		verifhook.Point("q.before_signal", "id", reqID, "result", "success")
 		req.SetProcessedSuccess()
 	}
 }
@@ -226,6 +232,7 @@ func (p *queueProcessor) processQueueItem(request *Request) bool {
 	}
 
 	allowed, err := p.checkIfAllowed(request)
+	verifhook.Point("q.quota", "id", request.GetID(), "allowed", allowed)
 	if !allowed {
 		// Re-enqueue request as it was blocked and we cant continue with this quota ID until it resets
 		p.logger.Trace().
@@ -233,6 +240,7 @@ func (p *queueProcessor) processQueueItem(request *Request) bool {
 			Str("requestID", request.GetID()).
 			Msgf("Request blocked, re-enqueueing")
 		_ = p.queue.Enqueue(request.GetID(), request.GetPriority())
+		verifhook.Point("q.requeued", "id", request.GetID())
 		return false
 	}
 
@@ -393,6 +401,7 @@ func (p *queueProcessor) enqueueIfSlotAvailable(req *Request) bool {
 		return false
 	}
 
+	verifhook.Point("q.after_slot_check", "id", req.GetID())
 	p.requestsWatcher.AddRequest(req)
 
 	p.logger.Trace().Str("requestID", req.GetID()).Msg("Slot available, enqueuing")
@@ -401,6 +410,7 @@ func (p *queueProcessor) enqueueIfSlotAvailable(req *Request) bool {
 			Msg("Failed to enqueue request")
 		return false
 	}
+	verifhook.Point("q.enqueued", "id", req.GetID())
 
 	return true
 }
@@ -517,6 +527,8 @@ func (p *queueProcessor) validateProcessingTimeoutIsGreaterTheTTL() error {
 }
 
 func (p *queueProcessor) removeRequest(reqID string) {
+	verifhook.Point("q.before_remove", "id", reqID)
 	p.requestsWatcher.RemoveFromWatchList(reqID)
 	p.queue.Remove(reqID)
+	verifhook.Point("q.removed", "id", reqID)
 }
